@@ -75,6 +75,18 @@ def W4():
     return {"parents": PAR, "methods": ms, "argmap": {"a3": 3}, "budget": 1}, [worlds.mkcall([2]), worlds.mkcall([3]), worlds.mkcall([4])]
 
 
+def W5():
+    # optional keyword-only parameters: the generated entry point collects the keywords supplied by this call
+    ms = [
+        worlds.mkmethod("m1", 1, [1], kw=[("k", 1, False), ("j", 1, False)], body="leaf"),
+        worlds.mkmethod("m2", 2, [2], kw=[("k", 1, False), ("j", 1, False)], body="next"),
+        worlds.mkmethod("m3", 3, [3], kw=[("k", 1, False), ("j", 1, False)], body="next"),
+        worlds.mkmethod("mX", 4, [4], body="leaf", late=True),
+    ]
+    return {"parents": PAR, "methods": ms}, [worlds.mkcall([3], [("k", 3)]), worlds.mkcall([3], [("j", 2)]), worlds.mkcall([2]),
+                                             worlds.mkcall([3], [("k", 2), ("j", 3)])]
+
+
 WORLDS = [W1, W2, W3]
 
 
@@ -213,6 +225,15 @@ def c19_jobs(tier, seed):
                          "switches": "sweep1", "limit": (30 if not thorough else 400), "offset": sh * 5 + seed, **s})
             jobs.append({"id": f"C19-w4-{name}-linehk{sh}", "world": w, "scenario": name, "after": probes, "granularity": "line",
                          "switches": "sweepab", "near_hooks": 2, "limit": (30 if not thorough else 1500), "offset": sh * 211 + seed, **s})
+    # racing calls that differ in the optional keywords they supply, on a function that is built and warm
+    w, probes = W5()
+    pairs = {"kw_kj": (probes[0], probes[1]), "kw_none": (probes[0], probes[2]), "kw_both": (probes[3], probes[1])}
+    for name, (a, b) in pairs.items():
+        s = dict(threads={"A": a, "B": b}, warm=[a, b])
+        jobs.append({"id": f"C19-w5-{name}-line", "world": w, "scenario": name, "after": probes[:3], "granularity": "line",
+                     "switches": "sweep1", "limit": (40 if not thorough else None), "offset": seed, **s})
+        jobs.append({"id": f"C19-w5-{name}-lineab", "world": w, "scenario": name, "after": probes[:3], "granularity": "line",
+                     "switches": "sweepab", "limit": (60 if not thorough else 1500), "offset": seed, **s})
     return jobs
 
 
